@@ -142,7 +142,7 @@ func (s *CDX) Serialize(bom *sbom.Document, _ *native.SerializeOptions, _ interf
 		}
 	}
 
-	if bom.Metadata != nil && bom.GetMetadata().GetName() != "" {
+	if bom.Metadata != nil && bom.GetMetadata().GetName() != "" && doc.Metadata.Component.Name == "" {
 		doc.Metadata.Component.Name = bom.GetMetadata().GetName()
 	}
 
